@@ -163,9 +163,10 @@ Complete(h, r) == [fe EXCEPT ![h] = [@ EXCEPT !.st = "ready", !.res = r]]
 
 (* manager.unsubscribe (manager.rs:281-302) + build_unsubscribe_message (helpers.rs:249-270): one critical section *)
 UnsubscribeEntry(s) ==   \* new `req` after initiating the unsubscribe of subscription id s
-  LET rid == subIdx[s] IN
-  IF "F13a" \in Dev THEN Put(req, rid, [k |-> "callNone"])      \* tree: the SUBSCRIBE id is kept as a pending call without a waiter
-  ELSE Del(req, rid)                                            \* design: only the reserved unsubscribe id stays until acknowledged
+  LET rid == subIdx[s]  u == req[rid].unsub IN
+  \* the subscribe id stays as a pending call without a waiter until the unsubscribe call (sent under the reserved id u)
+  \* is acknowledged; the reserved slot remembers which id to release then
+  Put(Put(req, rid, [k |-> "callNone"]), u, [k |-> "unsubPending", of |-> rid])
 
 StStep(sendOk) ==
   /\ st = "run" /\ toBack # <<>>
@@ -309,7 +310,12 @@ RtRecv ==
                       /\ req' = Del(req, m.id)
                       /\ UNCHANGED <<subIdx, bat, stream, toBack, rt, rtRes, fwd>>
                ELSE IF req[m.id].k = "callNone"
-                 THEN /\ req' = Del(req, m.id) /\ UNCHANGED <<fe, subIdx, bat, stream, toBack, rt, rtRes, fwd>>     \* acknowledged unsubscribe
+                 THEN /\ req' = Del(req, m.id) /\ UNCHANGED <<fe, subIdx, bat, stream, toBack, rt, rtRes, fwd>>     \* a pending call nobody waits for
+               ELSE IF req[m.id].k = "unsubPending"                                                                  \* acknowledged unsubscribe
+                 THEN LET of == req[m.id].of
+                          R1 == Del(req, m.id)
+                      IN /\ req' = IF "F13a" \notin Dev /\ Has(R1, of) /\ R1[of].k = "callNone" THEN Del(R1, of) ELSE R1
+                         /\ UNCHANGED <<fe, subIdx, bat, stream, toBack, rt, rtRes, fwd>>
                ELSE LET h == req[m.id].h  u == req[m.id].unsub
                         Rrefused == IF "F13c" \in Dev THEN Del(req, m.id) ELSE Del(Del(req, m.id), u)
                     IN  \* pending subscription: helpers.rs:192-228
